@@ -113,7 +113,7 @@ class Divider(Process):
 def jobs(tier):
     q = tier == 'quick'
     out = [dict(name='kernel-%s' % k, part='kernel', kernel=k, budget_s=600,
-                validate=0)
+                validate=0, cross=not q)
            for k in ('split_int', 'split_float', 'binomial')]
     out.append(dict(name='functions', part='functions', budget_s=100))
     for depth in ((0, 1) if q else (0, 1, 2)):
@@ -130,7 +130,7 @@ def body(ctx, cfg):
 
 
 def part_kernel(ctx, cfg):
-    r = kern.run_kernel(cfg['kernel'])
+    r = kern.run_kernel(cfg['kernel'], cross=cfg.get('cross', False))
     ctx.report('kernels', r['report'])
     if r['answer'] in ('cannot-encode', 'undecided'):
         from vsym.core import HarnessError
